@@ -45,6 +45,8 @@ def output_tags(out_src):
         tags.append("out:except-as-literal")
     if re.search(r"def \w+\([^)\n]*\*\w+(: \w+)? = |def \w+\([^)\n]*\*\w+[^)\n]*\*\w+|def \w+\([^)\n]*= [^,)\n]+, \w+(: [\w\[\]]+)?[,)]", out_src):
         tags.append("out:bad-parameter-list")
+    elif re.search(r"lambda [^:\n]*\*\w+ = |lambda [^:\n]*\*\w+[^:\n]*\*\w+|lambda [^:\n]*= [^,:\n]+, \*?\w+ *[,:]", out_src):
+        tags.append("out:bad-parameter-list")   # the same three shapes in the parameter list of a lambda
     return tags
 
 
